@@ -7,8 +7,9 @@ package main
 //     every catalog name tree, number trees, structure tree, AcroForm fields, threads, resources,
 //     colour spaces, functions, actions, annotations, optional content, nested arrays/dicts, streams,
 //     /Prev chains, /Extends chains ...) x shapes (self reference, 2-cycle, fan-out 1 / 2 / 8, cycle
-//     below a valid root, 300-deep chain, 40-level lattice with 2^40 paths). Each is fed to the four
-//     fixed entry points and to every entry point that walks the structure (ungated).
+//     below a valid root, 120-deep chain, 40-level lattice with 2^40 paths; the same objects also
+//     inside object streams). Each is fed, ungated, to the four fixed entry points and to coreExtra
+//     of the entry points that walk the structure (rotating over the shapes of the family).
 //  2. core-hostile: every pdfgen graph attack (3 fixed parameter draws each, on two fixed base
 //     documents: classic table / xref stream + object streams), every bomb kind, every nesting shape at
 //     the recursion limit, and every class of structural override pdfgen's RandomOverrides knows.
